@@ -12,50 +12,51 @@ open SuppModel.Proj
 def starDisk : Disk := [([1], ⟨1, [.star [2]]⟩), ([2], ⟨2, [.bind 10 7]⟩)]
 
 def starHistory : List Op :=
-  [.request (.names [1] none), .write [2] [.bind 11 8], .request (.names [1] none)]
+  [.request (.names [1] none), .write [2] 3 [.bind 11 8], .request (.names [1] none)]
 
 /-- pinned tree: `a: from b import *`, rewrite b, ask for a's names through `import a` — the second
     answer is still b's old name K although a fresh project says L -/
 theorem C09_star :
-    (run .pinned 10 (World.init starDisk 2) starHistory).map (·.2.2) = [.names [10], .names [10]] ∧
-    fresh 10 ((run .pinned 10 (World.init starDisk 2) starHistory).getLast!.1) (.names [1] none)
+    (run .pinned 10 (World.init .pinned starDisk) starHistory).map (·.2.2) = [.names [10], .names [10]] ∧
+    fresh 10 ((run .pinned 10 (World.init .pinned starDisk) starHistory).getLast!.1) (.names [1] none)
       = .names [11] := by decide
 
 /-- the same history is answered correctly by the other two variants -/
 theorem C09_star_repaired :
-    (run .coarseOnly 10 (World.init starDisk 2) starHistory).map (·.2.2) = [.names [10], .names [11]] ∧
-    (run .current 10 (World.init starDisk 2) starHistory).map (·.2.2) = [.names [10], .names [11]] := by
+    (run .coarseOnly 10 (World.init .coarseOnly starDisk) starHistory).map (·.2.2) = [.names [10], .names [11]] ∧
+    (run .current 10 (World.init .current starDisk) starHistory).map (·.2.2) = [.names [10], .names [11]] := by
   decide
 
 /-- resolved imported name (`_ref`): `a: from b import K`, rewrite b so that K is something else -/
 theorem C09_ref :
-    (run .pinned 10 (World.init [([1], ⟨1, [.frm [2] 10 10]⟩), ([2], ⟨2, [.bind 10 7]⟩)] 2)
-      [.request (.attr [1] none 10), .write [2] [.bind 10 8], .request (.attr [1] none 10)]).map (·.2.2)
+    (run .pinned 10 (World.init .pinned [([1], ⟨1, [.frm [2] 10 10]⟩), ([2], ⟨2, [.bind 10 7]⟩)])
+      [.request (.attr [1] none 10), .write [2] 3 [.bind 10 8], .request (.attr [1] none 10)]).map (·.2.2)
       = [.payload 7, .payload 7] := by decide
 
 def createdDisk : Disk := [([1], ⟨1, [.frm [2] 10 10, .star [2]]⟩)]
 
 def createdHistory : List Op :=
-  [.request (.attr [1] none 10), .write [2] [.bind 10 7], .request (.attr [1] none 10),
+  [.request (.attr [1] none 10), .write [2] 2 [.bind 10 7], .request (.attr [1] none 10),
    .request (.names [1] none)]
 
 /-- b5a1370 alone: a imports b before b exists; create b; requests through a still see nothing of b
     (no cached module changed, and the failed import is memoised in a's cached analysis) -/
 theorem C09_created :
-    (run .coarseOnly 10 (World.init createdDisk 1) createdHistory).map (·.2.2)
+    (run .coarseOnly 10 (World.init .coarseOnly createdDisk) createdHistory).map (·.2.2)
       = [.nothing, .nothing, .names [10]] ∧
-    (run .current 10 (World.init createdDisk 1) createdHistory).map (·.2.2)
+    (run .current 10 (World.init .current createdDisk) createdHistory).map (·.2.2)
       = [.nothing, .payload 7, .names [10, 10]] := by decide
 
 /-- a single history on which the check fails refutes transparency of that variant -/
-theorem not_transparent_of {v : Variant} {fuel : Nat} {D0 : Disk} {c0 : Nat} {ops : List Op}
-    (hc : clockOk D0 c0 = true) (hbad : transparentOn v fuel D0 c0 ops = false) : ¬ Transparent v := by
+theorem not_transparent_of {v : Variant} {fuel : Nat} {D0 : Disk} {ops : List Op}
+    (hf : freshMtimes (seenOf D0) ops = true) (hbad : transparentOn v fuel D0 ops = false) :
+    ¬ Transparent v := by
   intro h
-  have : transparentOn v fuel D0 c0 ops = true := by
+  have : transparentOn v fuel D0 ops = true := by
     unfold transparentOn
     rw [List.all_eq_true]
     intro r hr
-    have := h fuel D0 c0 hc ops r hr
+    have := h fuel D0 ops hf r hr
     by_cases h1 : r.2.2 = .recursion
     · simp [h1]
     · by_cases h2 : fresh fuel r.1 r.2.1 = .recursion
@@ -65,15 +66,15 @@ theorem not_transparent_of {v : Variant} {fuel : Nat} {D0 : Disk} {c0 : Nat} {op
   cases this
 
 /-- the same when the history uses absolute imports only -/
-theorem not_transparentAbs_of {v : Variant} {fuel : Nat} {D0 : Disk} {c0 : Nat} {ops : List Op}
-    (hc : clockOk D0 c0 = true) (ha : absDisk D0 = true) (ho : ops.all Op.isAbs = true)
-    (hbad : transparentOn v fuel D0 c0 ops = false) : ¬ TransparentAbs v := by
+theorem not_transparentAbs_of {v : Variant} {fuel : Nat} {D0 : Disk} {ops : List Op}
+    (ha : absDisk D0 = true) (hf : freshMtimes (seenOf D0) ops = true) (ho : ops.all Op.isAbs = true)
+    (hbad : transparentOn v fuel D0 ops = false) : ¬ TransparentAbs v := by
   intro h
-  have : transparentOn v fuel D0 c0 ops = true := by
+  have : transparentOn v fuel D0 ops = true := by
     unfold transparentOn
     rw [List.all_eq_true]
     intro r hr
-    have := h fuel D0 c0 hc ha ops ho r hr
+    have := h fuel D0 ha ops hf ho r hr
     by_cases h1 : r.2.2 = .recursion
     · simp [h1]
     · by_cases h2 : fresh fuel r.1 r.2.1 = .recursion
@@ -84,12 +85,32 @@ theorem not_transparentAbs_of {v : Variant} {fuel : Nat} {D0 : Disk} {c0 : Nat} 
 
 /-- the pinned tree does not have the property (absolute imports suffice) -/
 theorem C09_pinned_false : ¬ TransparentAbs .pinned :=
-  not_transparentAbs_of (fuel := 10) (D0 := starDisk) (c0 := 2) (ops := starHistory)
+  not_transparentAbs_of (fuel := 10) (D0 := starDisk) (ops := starHistory)
     (by decide) (by decide) (by decide) (by decide)
 
 /-- nor does b5a1370 alone -/
 theorem C09_coarseOnly_false : ¬ TransparentAbs .coarseOnly :=
-  not_transparentAbs_of (fuel := 10) (D0 := createdDisk) (c0 := 1) (ops := createdHistory)
+  not_transparentAbs_of (fuel := 10) (D0 := createdDisk) (ops := createdHistory)
+    (by decide) (by decide) (by decide) (by decide)
+
+/-- a = [1]: `from b import *` (unchanged), b = [2] cached at mtime 50 -/
+def ltDisk : Disk := [([1], ⟨50, [.star [2]]⟩), ([2], ⟨50, [.bind 10 7]⟩)]
+
+/-- request through a; b is rewritten and gets an OLDER mtime (restored from a backup, checked out by git,
+    clock skew); the same request -/
+def ltHistory : List Op :=
+  [.request (.names [1] none), .write [2] 30 [.bind 11 8], .request (.names [1] none)]
+
+/-- `changed` written as `self.mtime < getmtime(...)`: the rewrite to an older mtime goes unnoticed and the
+    second answer is b's old name, where a fresh project — and the code as it is, with `!=` — says L -/
+theorem C09_lt :
+    (run .ltChanged 10 (World.init .ltChanged ltDisk) ltHistory).map (·.2.2) = [.names [10], .names [10]] ∧
+    (run .current 10 (World.init .current ltDisk) ltHistory).map (·.2.2) = [.names [10], .names [11]] ∧
+    freshMtimes (seenOf ltDisk) ltHistory = true := by decide
+
+/-- so that variant is not transparent, on a 3-step history with absolute imports and fresh mtimes -/
+theorem C09_lt_false : ¬ TransparentAbs .ltChanged :=
+  not_transparentAbs_of (fuel := 10) (D0 := ltDisk) (ops := ltHistory)
     (by decide) (by decide) (by decide) (by decide)
 
 /-- package `zq_p8.zq_p9` = [8, 9] with `__init__`, but `zq_p8/` has no `__init__.py` yet;
@@ -99,19 +120,19 @@ def normDisk : Disk :=
 
 /-- `from zq_p8.zq_p9 import zq_m1; zq_m1.K10.` — create `zq_p8/__init__.py` — the same request -/
 def normHistory : List Op :=
-  [.request (.attr [8, 9] (some 1) 10), .write [8] [], .request (.attr [8, 9] (some 1) 10)]
+  [.request (.attr [8, 9] (some 1) 10), .write [8] 4 [], .request (.attr [8, 9] (some 1) 10)]
 
 /-- OPEN: the code as it is now.  After `zq_p8/__init__.py` appears, the relative name `.zq_m2` means
     `zq_p8.zq_p9.zq_m2` to a fresh project (which finds `K10`), but the long-lived project keeps the
     `_norm_cache` entry `zq_p9` for that directory and goes on looking for `zq_p9.zq_m2`:
     `check_changes` never drops `_norm_cache`. -/
 theorem C09_norm_history :
-    (run .current 10 (World.init normDisk 3) normHistory).map (·.2.2) = [.nothing, .nothing] ∧
+    (run .current 10 (World.init .current normDisk) normHistory).map (·.2.2) = [.nothing, .nothing] ∧
     fresh 10 (([8], ⟨4, []⟩) :: normDisk) (.attr [8, 9] (some 1) 10) = .payload 1 := by decide
 
 /-- hence the full-strength statement (relative imports included) is false of the current code -/
 theorem C09_norm_false : ¬ Transparent .current :=
-  not_transparent_of (fuel := 10) (D0 := normDisk) (c0 := 3) (ops := normHistory) (by decide) (by decide)
+  not_transparent_of (fuel := 10) (D0 := normDisk) (ops := normHistory) (by decide) (by decide)
 
 /-- the same defect in `norm_package` taken alone.
     `zq_p8/zq_p9/` is a package, `zq_p8/` is not yet; a module in `zq_p8/zq_p9/` does `from .zq_m2 import K`:
